@@ -18,18 +18,23 @@ func sumN(a []float64) float64 {
 }
 
 // nmoveCase runs the real transport kernel and emits inputs (incl. the exp oracle values) and outputs
-func nmoveCase(tag string, g *hermes.GlobalVarsMain, l *hermes.NitroSharedVars, wdt float64, subd, zeit int) {
+func nmoveInputs(tag string, g *hermes.GlobalVarsMain, wdt float64, subd, zeit int) jobj {
 	n := g.N
 	expo := make([]float64, n)
 	for z := 0; z < n; z++ {
 		expo[z] = math.Exp((g.WG[0][z] + g.WG[0][z+1]) * 5)
 	}
 	growing := zeit >= g.SAAT[g.AKF.Index] && zeit <= g.ERNTE2[g.AKF.Index]
-	in := jobj{"tag": tag, "n": n, "subd1": subd == 1, "wdt": hx(wdt), "after_sow": zeit > g.SAAT[g.AKF.Index], "growing": growing,
+	return jobj{"tag": tag, "n": n, "subd1": subd == 1, "wdt": hx(wdt), "after_sow": zeit > g.SAAT[g.AKF.Index], "growing": growing,
 		"fluss0": hx(g.FLUSS0), "dv": hx(g.DV), "draidep": g.DRAIDEP, "qdrain": hx(g.QDRAIN), "outn": g.OUTN, "stab": hx(g.C1stabilityVal),
 		"schnorr": hx(g.SCHNORR), "ad": hxs(g.AD[:n]), "expo": hxs(expo), "wg0": hxs(g.WG[0][:n+1]), "w": hxs(g.W[:n+1]),
 		"pe": hxs(g.PE[:n]), "c1": hxs(g.C1[:n]), "dn": hxs(g.DN[:n]), "q1": hxs(g.Q1[:n+1]),
 		"cnt": hxs([]float64{g.PESUM, g.AUFNASUM, g.OUTSUM, g.NLEAG, g.DRAINLOSS})}
+}
+
+func nmoveCase(tag string, g *hermes.GlobalVarsMain, l *hermes.NitroSharedVars, wdt float64, subd, zeit int) {
+	n := g.N
+	in := nmoveInputs(tag, g, wdt, subd, zeit)
 	c1Before := append([]float64{}, g.C1[:n]...)
 	dn := append([]float64{}, g.DN[:n]...)
 	wg0 := append([]float64{}, g.WG[0][:n+1]...)
@@ -46,6 +51,14 @@ func nmoveCase(tag string, g *hermes.GlobalVarsMain, l *hermes.NitroSharedVars, 
 		pe = sumN(g.PE[:n])
 		if math.Abs((g.AUFNASUM-aufna0)-pe) > 1e-9*(1+math.Abs(pe)) {
 			oracleFail("uptake-credit tag=%s aufnasum-delta=%v sum-pe=%v", tag, g.AUFNASUM-aufna0, pe)
+		}
+		// the day's fixation is credited to the crop once, in full, whatever the sub-step length
+		fix := 0.0
+		if zeit >= g.SAAT[g.AKF.Index] && zeit <= g.ERNTE2[g.AKF.Index] {
+			fix = g.SCHNORR
+		}
+		if math.Abs((g.PESUM-pesum0)-(pe+fix)) > 1e-9*(1+math.Abs(pe)+math.Abs(fix)+math.Abs(pesum0)) {
+			oracleFail("fixation-credit tag=%s wdt=%v dPESUM=%v sum-pe=%v fixation=%v", tag, wdt, g.PESUM-pesum0, pe, fix)
 		}
 	} else if g.AUFNASUM != aufna0 || g.PESUM != pesum0 {
 		oracleFail("uptake-credited-in-later-substep tag=%s subd=%d dPESUM=%v dAUFNASUM=%v", tag, subd, g.PESUM-pesum0, g.AUFNASUM-aufna0)
@@ -154,6 +167,110 @@ func denitCase(tag string, g *hermes.GlobalVarsMain) {
 	emit(jobj{"k": "denit", "tag": tag, "in": in, "out": jobj{"c1": hxs(g.C1[:3]), "cum": hx(g.CUMDENIT)}})
 }
 
+// denitmoCase: peat soils (first horizon texture 'H'): three 30 cm blocks
+func denitmoCase(tag string, g *hermes.GlobalVarsMain) {
+	nq, fth, fte := make([]float64, 3), make([]float64, 3), make([]float64, 3)
+	temp := g.TEMP[g.TAG.Index]
+	if temp < 0 {
+		temp = 0
+	}
+	temps := []float64{temp, temp, 8.}
+	s0 := 0.0
+	for b := 0; b < 3; b++ {
+		theta := (g.WG[1][3*b] + g.WG[1][3*b+1] + g.WG[1][3*b+2]) / 3
+		sat := (g.PORGES[3*b] + g.PORGES[3*b+1] + g.PORGES[3*b+2]) / 3
+		rel := theta / sat
+		nit := g.C1[3*b] + g.C1[3*b+1] + g.C1[3*b+2]
+		s0 += nit
+		nq[b] = math.Pow(nit, 2)
+		fth[b] = 1 - math.Exp(-1*math.Pow((rel/0.766), 6))
+		fte[b] = 1 - math.Exp(-1*math.Pow((temps[b]/15.5), 4.6))
+	}
+	in := jobj{"c1": hxs(g.C1[:9]), "nq": hxs(nq), "fth": hxs(fth), "fte": hxs(fte), "cum": hx(g.CUMDENIT)}
+	cum0 := g.CUMDENIT
+	hermes.Denitmo(g)
+	s1 := 0.0
+	for z := 0; z < 9; z++ {
+		s1 += g.C1[z]
+		if !(g.C1[z] >= 0) {
+			oracleFail("c1-negative tag=%s layer=%d value=%v", tag, z+1, g.C1[z])
+		}
+	}
+	counted := g.CUMDENIT - cum0
+	if s1 < s0-counted-1e-9*(1+s0) {
+		oracleFail("denit-removes-more-than-counted tag=%s before=%v after=%v counted=%v", tag, s0, s1, counted)
+	}
+	// without an engaged clamp the soil loses exactly what the counter gains
+	clampFree := true
+	for z := 0; z < 9; z++ {
+		if g.C1[z] == 0 {
+			clampFree = false
+		}
+	}
+	if clampFree && math.Abs((s0-s1)-counted) > 1e-9*(1+s0) {
+		oracleFail("denit-balance tag=%s before=%v after=%v counted=%v", tag, s0, s1, counted)
+	}
+	emit(jobj{"k": "denitmo", "tag": tag, "in": in, "out": jobj{"c1": hxs(g.C1[:9]), "cum": hx(g.CUMDENIT)}})
+}
+
+// tillCase: the tillage block of Nitro on sub-step 1 (mineralisation switched off with IZM = 0, no fertiliser, no harvest)
+func tillCase(tag string, r *rng, g *hermes.GlobalVarsMain, l *hermes.NitroSharedVars, wdt float64, zeit int) {
+	n := g.N
+	g.IZM = 0
+	g.Kalender = hermes.KalenderConverter(hermes.DateDElong, ".")
+	g.AUTOFERT = false
+	g.NDG.SetByIndex(0)
+	g.ZTDG[0] = zeit + 1000
+	g.AKF.SetByIndex(0)
+	g.SAAT[0] = 0
+	g.ERNTE[0] = zeit + 500
+	g.ERNTE2[0] = zeit + 600
+	g.NTIL.SetByIndex(0)
+	g.EINTE[1] = zeit - 1
+	depths := []float64{5, 10, 15, 20, 25, 28, 30, 35, 45, 50, 8, 12.5}
+	g.EINT[0] = depths[r.intn(len(depths))]
+	if int(math.Round(g.EINT[0]/10)) > n {
+		g.EINT[0] = 10
+	}
+	g.TILART[0] = 1
+	if r.chance(0.15) {
+		g.TILART[0] = 2
+	}
+	for z := 0; z < n; z++ {
+		g.DN[z] = 0
+	}
+	k := 6
+	if k > n {
+		k = n
+	}
+	in := nmoveInputs(tag, g, wdt, 1, zeit)
+	pre := jobj{"eint": hx(g.EINT[0]), "tilart": g.TILART[0], "nfos": hxs(g.NFOS[:k]), "naos": hxs(g.NAOS[:k]),
+		"minfos": hxs(g.MINFOS[:k]), "minaos": hxs(g.MINAOS[:k])}
+	sum := func() (float64, float64) {
+		a, b := 0.0, 0.0
+		for z := 0; z < k; z++ {
+			a += g.NFOS[z] + g.MINFOS[z]
+			b += g.NAOS[z] + g.MINAOS[z]
+		}
+		return a, b
+	}
+	a0, b0 := sum()
+	var ln hermes.NitroBBBSharedVars
+	var hp hermes.HFilePath
+	var out hermes.CropOutputVars
+	_, err := hermes.Nitro(wdt, 1, zeit, g, l, &ln, &hp, &out)
+	if err != nil {
+		oracleFail("tillage-run-error tag=%s err=%v", tag, err)
+		return
+	}
+	a1, b1 := sum()
+	if math.Abs(a1-a0) > 1e-9*(1+math.Abs(a0)) || math.Abs(b1-b0) > 1e-9*(1+math.Abs(b0)) {
+		oracleFail("tillage-mixing-not-conservative tag=%s depth=%v type=%d fast-before=%v after=%v slow-before=%v after=%v", tag, g.EINT[0], g.TILART[0], a0, a1, b0, b1)
+	}
+	emit(jobj{"k": "till", "tag": tag, "in": in, "pre": pre, "out": jobj{"nfos": hxs(g.NFOS[:k]), "naos": hxs(g.NAOS[:k]),
+		"minfos": hxs(g.MINFOS[:k]), "minaos": hxs(g.MINAOS[:k]), "c1": hxs(g.C1[:n])}})
+}
+
 func synthNitro(r *rng) {
 	g := hermes.NewGlobalVarsMain()
 	var l hermes.NitroSharedVars
@@ -254,6 +371,13 @@ func synthNitro(r *rng) {
 	g.NH4Sum = r.between(0, 100)
 	g.NH4UMS = g.NH4Sum * r.float()
 	g.N2onitsum, g.MINSUM = r.between(0, 5), r.between(0, 100)
+	if r.chance(0.25) {
+		gt, lt := g, l
+		for z := 0; z < 6; z++ {
+			gt.NFOS[z], gt.NAOS[z], gt.MINFOS[z], gt.MINAOS[z] = r.between(0, 60), r.between(0, 3000), r.between(0, 50), r.between(0, 200)
+		}
+		tillCase("synth", r, &gt, &lt, wdt, zeit)
+	}
 	if r.chance(0.6) {
 		mineralCase("synth", &g, &l)
 	}
@@ -273,6 +397,20 @@ func synthNitro(r *rng) {
 		g.C1[0], g.C1[1], g.C1[2] = r.between(0, 0.3), 0, r.between(0, 0.2)
 	}
 	denitCase("synth", &g)
+	// peat-soil denitrification: three blocks with different moisture / nitrate
+	if g.N >= 9 && r.chance(0.5) {
+		gp := g
+		for z := 0; z < 9; z++ {
+			gp.WG[1][z] = r.between(gp.PORGES[z]*0.3, gp.PORGES[z])
+			gp.C1[z] = r.between(0, 40)
+			if r.chance(0.2) {
+				gp.C1[z] = r.between(0, 0.05)
+			}
+		}
+		gp.TAG.SetByIndex(r.intn(300))
+		gp.TEMP[gp.TAG.Index] = r.between(-5, 28)
+		denitmoCase("synth", &gp)
+	}
 }
 
 func c02(args []string) {
